@@ -1,5 +1,6 @@
 import WebrtcVerif.Base.Wire
 import WebrtcVerif.Drv.C22
+import WebrtcVerif.Drv.C36
 /-!
   wvdriver — line-protocol driver.
     wvdriver run    : stdin lines `<Cxx> <op…>`            → one model output line each
@@ -10,6 +11,7 @@ open WebrtcVerif
 def runLine (toks : List String) : String :=
   match toks with
   | "C22" :: rest => Drv.C22.run rest
+  | "C36" :: rest => Drv.C36.run rest
   | _ => "bad-op"
 
 def judgeLine (toks : List String) : String :=
@@ -17,6 +19,7 @@ def judgeLine (toks : List String) : String :=
   let out := (toks.dropWhile (· ≠ "=>")).drop 1
   match op with
   | "C22" :: rest => Drv.C22.judge rest out
+  | "C36" :: rest => Drv.C36.judge rest out
   | _ => "bad-judge"
 
 partial def loop (h : IO.FS.Stream) (out : IO.FS.Stream) (f : List String → String) : IO Unit := do
